@@ -94,6 +94,7 @@ type Summary struct {
 	Params  []Val
 	Ret     Val // nil, a single value, or *StructV for tuples
 	Out     *State
+	Init    *State // state at entry (after seeding)
 	Events  []Event
 	Failed  string
 	in      *Interp
